@@ -87,7 +87,7 @@ def gen_cases(ctx, scale=1.0):
     ctx.notes['enumerated'] = ('threads 1..2 x pieces {1, cap, cap+2}: callback cancel/raise at every pieces_done, '
                                'OSError at (every / every other) read call, refusal of every thread')
     # 2. random: large piece counts (bounded work after the fault), OOM bursts, combinations
-    for _ in range(int(ctx.n(1500, 90000) * scale)):
+    for _ in range(int(ctx.n(1500, 40000) * scale)):
         threads = rng.choice([1, 2, 2, 3])
         cap = 3 * threads
         npieces = rng.choice([cap + 3, 2 * cap + 5, 6 * cap, 12 * cap])
